@@ -95,7 +95,8 @@ def regenerate_gen():
     import py_to_coq
 
     st = py_to_coq.regenerate(REPO, os.path.join(THEORIES, "Gen"))
-    for modname, fname in (("decisions", "Decisions.v"), ("loops", "Loops.v")):
+    extra = sorted(f[:-3] for f in os.listdir(os.path.join(ROOT, "translator")) if re.fullmatch(r"(loops|decisions)_[a-z0-9_]+\.py", f))
+    for modname, fname in [("decisions", "Decisions.v"), ("loops", "Loops.v")] + [(m, m + ".v") for m in extra]:
         try:
             mod = __import__(modname)
             st.update({k: (None if v is None else "redundant-tie: " + str(v)) for k, v in mod.regenerate(REPO, os.path.join(THEORIES, "Gen")).items()})
@@ -109,10 +110,13 @@ def gen_tie(pid, theorems):
     for all inputs, to the hand-model definitions (Props/GenTie.v).  The theorems a property names are compiled on their own (one file per
     property under build/gentie) so that one broken equation does not hide the others.  Returns {theorem: "checked" | "lost: why"}."""
     files = {}
-    for fn, deps in (("GenTie.v", ["Gen/Decisions.vo", "Proofs/GenTieLemmas.vo"]), ("GenTieLoops.v", ["Gen/Loops.vo", "Proofs/GenTieLoopsLemmas.vo"])):
+    for fn in sorted(f for f in os.listdir(os.path.join(THEORIES, "Props")) if re.fullmatch(r"GenTie[A-Za-z0-9_]*\.v", f)):
         src_f = open(os.path.join(THEORIES, "Props", fn)).read()
         m0 = re.search(r"^\(\* ---- ", src_f, flags=re.M)
-        files[fn] = (src_f, src_f[:m0.start()] if m0 else src_f[:src_f.index("Theorem")], deps)
+        head_f = src_f[:m0.start()] if m0 else src_f[:src_f.index("Theorem")]
+        # what the file's header requires of the generated / lemma layer: `Gen.X` -> Gen/X.vo, `Proofs.Y` -> Proofs/Y.vo
+        deps = [f"{a}/{b}.vo" for a, b in re.findall(r"\b(Gen|Proofs)\.([A-Za-z0-9_]+)", strip_coq_comments(head_f))]
+        files[fn] = (src_f, head_f, list(dict.fromkeys(deps)))
     out = {}
     made = {}
     make(["Model/AP.vo", "Model/Matching.vo", "Model/Filter.vo", "Model/Clear.vo", "Model/PassFail.vo"])
@@ -125,7 +129,7 @@ def gen_tie(pid, theorems):
             made[fn] = make(deps)
         ok, log = made[fn]
         if not ok:
-            out[t] = f"lost: {deps[0][:-1]} or its lemmas do not compile: " + log[-300:].replace("\n", " ")
+            out[t] = f"lost: {' / '.join(x[:-1] for x in deps)} do not compile: " + log[-300:].replace("\n", " ")
             continue
         m = re.search(r"^Theorem " + re.escape(t) + r"\b.*?^Print Assumptions " + re.escape(t) + r"\.", src, flags=re.M | re.S)
         if not m:
@@ -543,7 +547,7 @@ def run_check(prop, tier, seed):
             gt = gen_tie(pid, prop.gen_tie_theorems)
         cov["redundant_tie"] = {"what": "Gen/Decisions.v, Gen/Loops.v (translated from the source on this run by translator/decisions.py, loops.py) = hand model, for all "
                                         "inputs (Props/GenTie.v, Props/GenTieLoops.v; each theorem closed under the global context)",
-                                "translator": {k: (gen.get(k) or "ok") for k in ("Decisions.v", "Loops.v")}, "theorems": gt}
+                                "translator": {k: (v or "ok") for k, v in gen.items() if k not in ("Enums.v", "LabelTables.v", "ConfigTables.v")}, "theorems": gt}
         lost_ties = {k: v for k, v in gt.items() if v != "checked"}
     cov["theorems"] = thms
     cov["nonvacuity_examples"] = examples
